@@ -25,11 +25,12 @@ import gen
 import nagarun
 import ocamlbuild
 import vcheck
+import cfskel
 
 LEVEL = "proof"
 
 MODEL_FILES = ["Hlsl/Syntax.v", "Hlsl/Ops.v", "Hlsl/Sem.v", "Hlsl/Decode.v", "Hlsl/Catalogue.v", "Hlsl/FloatConv.v", "Hlsl/CatalogueProofs.v",
-               "Hlsl/OpTable.v", "Gen/HlslOpTable.v", "IR/Values.v", "IR/Sem.v", "Base/Bits32.v", "Base/F32.v"]
+               "Hlsl/OpTable.v", "Gen/HlslOpTable.v", "IR/Values.v", "IR/Sem.v", "Base/Bits32.v", "Base/F32.v"] + cfskel.TARGET_FILES
 
 
 def rows_file():
@@ -52,6 +53,12 @@ def run(ctx):
         t0 = time.time()
     tools = vcheck.build_harness(["hlsldrive", "goextract"])
     mark("build_harness")
+    # recogniser of the control-flow encodings (coq/Target/Shapes.v) over every HLSL text the reader reads
+    shapes = cfskel.Shapes(cfskel.build_exe(), "hlsl")
+    shapes.ctx = ctx
+    del D.PROGRAM_OBSERVERS[:]
+    D.PROGRAM_OBSERVERS.append(lambda pr: pr.ast is not None and shapes.add(
+        "%s:%s" % (pr.name, pr.optname), pr.ast, {"emitted.hlsl": pr.hlsl, "case.txt": "%s option set %s" % (pr.name, pr.optname)}))
     ok, failed, log = vcheck.proof_step(
         ctx, "Props/C03.v", MODEL_FILES,
         gen_writer=lambda: gen.regenerate(tools, ["irenums", "hlsloptable"]),
@@ -234,6 +241,38 @@ def run(ctx):
         totals["corpus"] = cstats
         report(ctx, crecs, strict=False)
         mark("validate_corpus")
+        # helper overload resolution on the emitted text (lib/hlslhelpers.py): the catalogue lemmas are about a helper body at
+        # the operand type of the IR operator; a call that binds to an overload of another type (implicit conversion) is outside
+        # them.  Whole corpus (64-bit and 16-bit shaders included) + programs using one wrapped operator at two widths.
+        import hlslhelpers
+        hp = [("corpus:" + n, s) for n, s in nagarun.corpus()] + hlslhelpers.width_mix_programs()
+        hres = nagarun.parallel_batches(tools["hlsldrive"], "compile", [{"id": i, "src": s, "want": [], "opts": D.OPTION_SETS["default51"]}
+                                                                       for i, (_n, s) in enumerate(hp)], per_job_timeout=30.0, chunk=16)
+        hstat = {"programs": len(hp), "compiled": 0, "helper_overloads": 0, "helper_calls": 0, "calls_with_typed_arguments": 0, "problems": 0}
+        seen_h = set()
+        for i, (n, s) in enumerate(hp):
+            r = hres.get(i) or {}
+            if "hlsl" not in r:
+                continue
+            hstat["compiled"] += 1
+            probs, st = hlslhelpers.check(r["hlsl"])
+            for k2 in ("helper_overloads", "helper_calls", "calls_with_typed_arguments"):
+                hstat[k2] += st[k2]
+            for kind, helper, types, avail, line in probs:
+                hstat["problems"] += 1
+                key = "hlsl:helper-overload:%s:%s:%s" % (kind, helper, "/".join(str(t) for t in types))
+                if key in seen_h:
+                    continue
+                seen_h.add(key)
+                ctx.violation("HLSL: the call `%s` in the output for %s passes arguments of type (%s) but the emitted text declares %s "
+                              "only for %s: HLSL resolves the call through implicit conversions (64-bit operands are truncated to 32 bits, "
+                              "float to half ...), so the helper does not compute the WGSL operator at the operand type"
+                              % (line, n, ", ".join(str(t) for t in types), helper, avail or "no type at all"),
+                              files={"input.wgsl": s, "emitted.hlsl": r["hlsl"]}, key=key)
+        ctx.cov["helper_overload_resolution"] = hstat
+        shapes.run()
+        ctx.cov["control_flow_shapes"] = shapes.evidence()
+        mark("helper_overloads")
         ctx.cov["phase_s"] = phase
         for s in totals.values():
             for smp in s.pop("samples", []):
